@@ -270,6 +270,9 @@ Definition add_chain (w : world) (c : list gref) : world :=
          | 10 len mode m0 g0 ..  connect the chain of existing gates (rule as above)     -> 11 wired?
          | 11 m via              new gate on module m (via 0: Sim::gate / ModuleRef::create_gate, 1: Spawner::gate) -> 12 position+1 | 12 0
          | 12 m                  from here on the operations run at run time inside module (m mod nmod)'s at_sim_start -> 13 switched?
+         | 13 m kind             (declaration) during the run-time part module m is down from start-up stage 0 on, the
+                                 operations run in stage 1: kind 0 shutdown(), 1 shutdow_and_restart_in(5 s), 2 a panic
+                                 caught by the stereotype; the executing module stays up                           -> 14 0
    query = 1                 Globals::topology() / Topology::current()  -> current
          | 2 r               Topology::spanned(module r)    -> current
          | 3 s               current.dijkstra(module s)
@@ -385,7 +388,9 @@ Inductive op :=
 | OQuery (q : query)
 | OConnect (c : list gref)      (* connect the gates of a chain, under the rule of [add_chain] *)
 | ONewGate (m : nat)            (* a new gate at the end of module m's gate list *)
-| ORuntime (m : nat).           (* from here on the operations run inside module m while the simulation runs *)
+| ORuntime (m : nat)            (* from here on the operations run inside module m while the simulation runs *)
+| ODown (m kind : nat).         (* module m is shut down / waiting for a restart / has panicked (caught) during the
+                                   run-time part; the world has no activity field: no view depends on it *)
 
 Definition MAX_GATES : nat := 60.
 Definition can_new_gate (w : world) (m : nat) : bool :=
@@ -412,6 +417,7 @@ Definition step (s : hstate) (o : op) : hstate * list N :=
                    [12; if can_new_gate w m then N.of_nat (S (length (gates_of w m))) else 0])
   | ORuntime m => if h_rt s || (length w =? 0)%nat then (s, [13; 0])
                   else ({| h_world := w; h_topo := h_topo s; h_rt := true |}, [13; 1])
+  | ODown _ _ => (s, [14; 0])
   end.
 
 Fixpoint exec_all (s : hstate) (os : list op) : list N :=
@@ -425,6 +431,7 @@ Definition dec_op (l : list N) : option (op * list N) :=
   | 10 :: r => let '(c, r') := take_lp' r in Some (OConnect (pairs (tl c)), r')
   | 11 :: m :: via :: r => Some (ONewGate (cl 255 m), r)
   | 12 :: m :: r => Some (ORuntime (cl 255 m), r)
+  | 13 :: m :: k :: r => Some (ODown (cl 255 m) (cl 255 k), r)
   | _ => match dec_query l with Some (q, r) => Some (OQuery q, r) | None => None end
   end.
 
